@@ -84,9 +84,11 @@ def facts_step(check, ctx):
         by_kind[s["kind"]] = by_kind.get(s["kind"], 0) + 1
     n_events = sum(len(s["events"]) for s in sites)
     for v in facts["violations"]:
+        # a structural rule is a PROOF OBLIGATION (a hypothesis of the C05 theorems about the current source), not a failing input:
+        # a correct re-plumbing (sync.WaitGroup, a worker pool, helpers that build the per-cell views) breaks it as well. The failing
+        # input is looked for dynamically (race detector + W correspondence); when none is found the verdict is no-failing-input-found.
         name = "structural rule %s violated in %s" % (v["rule"], v["file"])
         problems.append({"kind": "proof-obligation", "name": name, "detail": v["detail"]})
-        _oracle(ctx, "runfacts:%s:%s" % (v["file"], v["rule"]), "%s: %s" % (name, v["detail"]))
     info["c05_runfacts"] = {
         "repo": facts["root"], "sites": len(sites), "by_kind": by_kind, "events": n_events,
         "wrapper_files_with_Run": facts["wrapper_files"], "template_variants": facts["template_variants"],
@@ -113,6 +115,7 @@ def facts_step(check, ctx):
     info.setdefault("samples", []).extend(ex)
     if facts["violations"]:
         _probe_families(check, ctx)
+        race_probe(ctx, facts["violations"], "C05")
     log("C05 run facts: %d sites (%s), %d events, %d violations, lean %s"
         % (len(sites), ", ".join("%s=%d" % kv for kv in sorted(by_kind.items())), n_events, len(facts["violations"]),
            "rewritten" if old != src else "unchanged"))
@@ -262,6 +265,87 @@ class _RaceWorker:
             self.p.wait(timeout=10)
         except Exception:
             self.kill()
+
+
+def models_of_violations(violations):
+    """catalogue models named by the wrapper files of the violations (generated_<Model>.go); None = not attributable to single models"""
+    ms = []
+    for v in violations:
+        m = re.search(r"generated_(\w+)\.go$", v.get("file", ""))
+        if not m:
+            return None
+        if m.group(1) not in ms:
+            ms.append(m.group(1))
+    return ms
+
+
+def race_probe(ctx, violations, tag, max_models=8, n=5):
+    """A structural rule broke: look for a FAILING INPUT with the race detector (quick: a handful of vectorised runs of the models
+    concerned under GOMAXPROCS 4, race build of the harness). Unsynchronised accesses of two cell goroutines are reported by the
+    detector whatever the timing (they are unordered by happens-before), so a real race shows on the first multi-cell case."""
+    if ctx.get("race_probe_done"):
+        return
+    ctx["race_probe_done"] = True
+    from checks.models import ALL_MODELS
+    t0 = time.time()
+    models = models_of_violations(violations)
+    if not models or len(models) > max_models:
+        pref = ["GR4J", "StorageRouting", "Lag", "Sacramento", "Storage", "InstreamFineSediment", "Muskingum", "DateGenerator"]
+        models = [m for m in pref if m in ALL_MODELS][:max_models]
+    models = [m for m in models if m in ALL_MODELS]
+    res = {"models": models, "why": "structural rule(s) broken: %s" % sorted({v["rule"] for v in violations})}
+    ctx["info"]["race_probe_" + tag] = res
+    if not models:
+        return
+    exe, msg = build_race(ctx, "./cmd/owharness", "owharness-race")
+    res["build"] = msg if exe else "FAILED: " + msg[-300:]
+    if not exe:
+        return
+    gd = os.path.join(ctx["workdir"], "race-probe-cases")
+    os.makedirs(gd, exist_ok=True)
+    r = core.run([ctx["harness"], "gen", "W", "-seed", str(ctx["seed"] + 500), "-tier", "quick", "-dir", gd,
+                  "models=" + ",".join(models), "n=%d" % n], cwd=gd, env=dict(GOENV, GOMEMLIMIT="6GiB", OW_HARNESS=ctx["harness"]))
+    if r.returncode != 0 or not os.path.exists(os.path.join(gd, "W.ops")):
+        res["cases"] = "generator died"
+        return
+    cases = []
+    for line in open(os.path.join(gd, "W.ops")):
+        t = line.rstrip("\n").split(" ", 2)
+        if len(t) == 3:
+            cases.append((t[1], t[2]))
+    res["cases"] = len(cases)
+    d = os.path.join(ctx["workdir"], "race-probe")
+    os.makedirs(d, exist_ok=True)
+    known_scopes = {k.get("scope") for k in core.load_known() if k.get("status") == "known"}
+    w, nworker, reports = None, 0, 0
+    for cid, body in cases:
+        if time.time() - t0 > 240:
+            break
+        if w is None:
+            nworker += 1
+            w = _RaceWorker(exe, "W", 4, os.path.join(d, "race-%d" % nworker))
+        if w.call(body) is not None:
+            continue
+        w.kill()
+        reps = _race_reports(w.logprefix)
+        w = None
+        tok = body.split(None, 2)
+        model, backend = tok[0], tok[1]
+        T, init = _w_meta("W %s %s" % (cid, body))
+        for _, txt in reps:
+            scope = "race:" + model
+            if T == 0 and backend == "c":
+                scope += ":empty-series"
+            elif init == 1 and (scope + ":InitialiseStates-row-width") in known_scopes:
+                continue   # the recorded finding about InitialiseStates' row width, not what this probe is looking for
+            reports += 1
+            _oracle(ctx, scope, "race detector report (probe after a broken structural rule), family W case %s, GOMAXPROCS=4, model %s:\n%s"
+                    % (cid, model, txt[:5000]), op=("W %s %s" % (cid, body))[:20000], family="W-race-probe")
+    if w is not None:
+        w.close()
+    res["race_reports"] = reports
+    res["seconds"] = round(time.time() - t0, 1)
+    log("race probe (%s): models %s, %s cases, %d race reports, %.1fs" % (tag, ",".join(models), res.get("cases"), reports, time.time() - t0))
 
 
 def race_step(check, ctx):
